@@ -747,12 +747,13 @@ void *qlist_toarray(qlist_t *list, size_t *size) {
  *  Return string is always terminated by '\0'.
  */
 char *qlist_tostring(qlist_t *list) {
+    qlist_lock(list);
+
     if (list->num <= 0) {
+        qlist_unlock(list);
         errno = ENOENT;
         return NULL;
     }
-
-    qlist_lock(list);
 
     void *chunk = malloc(list->datasum + 1);
     if (chunk == NULL) {
